@@ -118,3 +118,20 @@ Proof.
     by (symmetry; repeat (apply andb_true_iff; split); apply Nat.leb_le; lia).
   rewrite F1, F2, F3, F4. rewrite !be_dec_enc by assumption. reflexivity.
 Qed.
+
+(* ---- non-vacuity: premises are inhabited, results are non-degenerate (closed by computation) ------------------ *)
+(* C12_download_reassembles: 300 one-byte blocks: the block counter passes 0xFF -> 0 and goes on *)
+Example c12_wrap :
+  let e1 := set_dl (ecu_init 3) (Some {| dl_addr := 4096; dl_size := 300; dl_data := []; dl_next := 1 |}) in
+  match e_dl (push_blocks e1 1 (repeat [7] 300)) with
+  | Some d => dl_next d = 45 /\ List.length (dl_data d) = 300%nat
+  | None => False
+  end.
+Proof. vm_compute. split; reflexivity. Qed.
+
+(* C12: a write to a data identifier and a read of two identifiers through the ECU *)
+Example c12_did_roundtrip :
+  let e1 := fst (ecu_step (ecu_init 16) [46; 241; 144; 65; 66; 67]) in
+  let e2 := fst (ecu_step e1 [46; 1; 2; 9]) in
+  snd (ecu_step e2 [34; 1; 2; 241; 144]) = [98; 1; 2; 9; 241; 144; 65; 66; 67].
+Proof. vm_compute. reflexivity. Qed.
